@@ -369,6 +369,7 @@ func Run(c *core.Ctx) {
 	var err error
 	var alphaRet float64
 	var lsP []float64
+	lsMax := 0.0
 	call := func() {
 		switch e.routine {
 		case "bfgs":
@@ -534,7 +535,17 @@ func Run(c *core.Ctx) {
 				return e.objective(x)
 			}
 			var a ad.Scalar
-			a, err = lineSearch.Run(phi, ad.Float64Type, lineSearch.Parameters{Alpha1: []float64{1, 0.1, 10}[t.Choose(3)], MaxEval: K},
+			lsArgs := []interface{}{}
+			if t.Bool(1, 3) {
+				// a constraint on the step: alpha <= lsMax (holds at 0)
+				lsMax = []float64{0.05, 0.3, 0.75, 1.5, 3, 12}[t.Choose(6)]
+				c.Logf("line search constraint: alpha <= %g", lsMax)
+				lsArgs = append(lsArgs, lineSearch.Constraints{Value: func(alpha ad.ConstScalar) bool {
+					e.consEvals++
+					return alpha.GetFloat64() <= lsMax
+				}})
+			}
+			a, err = lineSearch.Run(phi, ad.Float64Type, append(lsArgs, lineSearch.Parameters{Alpha1: []float64{1, 0.1, 10}[t.Choose(3)], MaxEval: K},
 				lineSearch.Hook{Value: func(alpha, y, g ad.ConstScalar) bool {
 					e.hookCalls++
 					if e.hookStopAt > 0 && e.hookCalls >= e.hookStopAt {
@@ -543,7 +554,7 @@ func Run(c *core.Ctx) {
 						return true
 					}
 					return false
-				}})
+				}})...)
 			if a != nil {
 				alphaRet = a.GetFloat64()
 			}
@@ -599,6 +610,16 @@ func Run(c *core.Ctx) {
 		return
 	}
 	if e.routine == "lineSearch" {
+		if lsMax > 0 {
+			// an infeasible step is never returned without an error -- whatever
+			// ended the search (also its evaluation budget)
+			if outcome != "hook-stop" && !(alphaRet <= lsMax) {
+				c.Fail("constraints", "lineSearch|infeasible-step-returned", "line search returned alpha=%g without error (%s after %d evaluations) although the constraint alpha <= %g is false there", alphaRet, outcome, e.evals, lsMax)
+			}
+			// the Wolfe conditions may not be attainable inside the feasible set
+			c.Count("not-judged:strong-wolfe-under-a-step-constraint")
+			return
+		}
 		if outcome == "returned" && !e.nanHit {
 			e.checkWolfe(alphaRet, lsP)
 		}
